@@ -23,4 +23,4 @@ META = dict(
 
 
 def main(tier, seed):
-    return e2.main(ID, HARNESS, tier, seed, META, t_quick=45, t_thorough=150)
+    return e2.main(ID, HARNESS, tier, seed, META, t_quick=45, t_thorough=90)
